@@ -806,6 +806,9 @@ func init() {
 			suites[n] = hs
 		}
 	}
+	// C04: the device's side of the join procedure as the library offers it (joindev.go)
+	h04 := suites["C04"]
+	suites["C04"] = func(rng *rand.Rand, tier string, w *Writer) { h04(rng, tier, w); joinDevSuite(rng, tier, w) }
 	// C01: the histories feed the pipeline what a gateway reported; that the forwarder hands over exactly those bytes
 	// (whatever the entry's other keys say) is run on the real forwarder as well
 	h01, g01 := suites["C01"], suites["gwC01"]
